@@ -109,7 +109,7 @@ PROPS["C04"] = {
 
 
 # properties whose check is not green yet are not claimed in MANIFEST.json
-NOT_YET = ["C03", "C09"]
+NOT_YET = ["C09"]
 
 
 def select(pid, tier, seed):
@@ -135,6 +135,8 @@ PROPS["C17"] = {
         H("c17_scalars::c17_pop_front", bounds="every ordered pair of scalar values", exhaustive=True),
         H("c17_scalars::c17_common_prefix", bounds="every triple of scalar values (prefix, left, right)", exhaustive=True),
         H("c17_scalars::c17_short_option", bounds="every scalar value other than '-' as a short option", exhaustive=True),
+        H("c17_scalars::c17_history_recall", bounds="every scalar value pushed to a 6-byte history and recalled", exhaustive=True),
+        H("c17_scalars::c17_error_line", bounds="every scalar value as the offending short option in the `error:` line", exhaustive=True, timeout=900, mem=4),
         H("c17_scalars::c17_encode_twin", kind="twin"),
     ],
 }
@@ -306,7 +308,7 @@ PROPS["C09"] = {
         "assumed away (statement silent): an option name directly followed by another option, by `--` or by the end of the line; a value-taking option given twice",
         "f32/f64 and the wider integer types are outside the claim",
     ],
-    "harnesses": [H("c09_derive::n%d::%s" % (n, v), tier=("both" if ((v.startswith("p1_") and v != "p1_exit" and n == 4) or (v.startswith("p2_") and n == 3) or (v == "p1_exit" and n <= 5)) else "thorough"), cfg=(["vp_thorough"] if n == 6 else []), bounds="%s, every well-formed token buffer of exactly %d bytes" % (d, n), timeout=3000, mem=8)
+    "harnesses": [H("c09_derive::n%d::%s" % (n, v), tier=("both" if ((v.startswith("p1_") and v != "p1_exit" and n == 4) or (v == "p1_exit" and n <= 5)) else "thorough"), cfg=(["vp_thorough"] if n == 6 else []), bounds="%s, every well-formed token buffer of exactly %d bytes" % (d, n), timeout=3000, mem=8)
                   for n in range(0, 7)
                   for (v, d) in [("p1_exit", "unit variant"),
                                  ("p1_led", "positional u8 + Option<u8> option (-l/--lv) + flag with generated short and explicit long (-v/--loud)"),
@@ -315,6 +317,8 @@ PROPS["C09"] = {
                                  ("p2_base", "named variant with a flag and a required sub-command; sub-command name is the last token"),
                                  ("p2_tup", "renamed tuple variant with a sub-command"),
                                  ("p2_opt", "optional sub-command")]] + [
+    ] + [H("c09_derive::" + c, bounds="sub-command parsing on the concrete token list `%s` (parent variants: named with a flag, renamed tuple, optional)" % c[4:], timeout=900, mem=4)
+         for c in ("p2c_base_exit", "p2c_base_flag_ping", "p2c_base_unknown", "p2c_base_missing", "p2c_base_bad_option", "p2c_base_sub_extra_arg", "p2c_tup_ping", "p2c_tup_missing", "p2c_opt_none", "p2c_opt_exit")] + [
         H("c09_derive::c09_name_dispatch", bounds="every command name of <= 4 bytes against P1 and the group G", timeout=1200, mem=6),
         H("c09_derive::c09_twin", kind="twin"),
     ],
